@@ -9,13 +9,14 @@ use mos_core::parser::parse_or_err;
 use mos_core::parser::source::FileSystemParsingSource;
 use mos_core::LINE_ENDING;
 use std::io::Write;
+use std::path::Path;
 
 /// Formats input file(s)
 #[derive(argh::FromArgs, PartialEq, Eq, Debug)]
 #[argh(subcommand, name = "format")]
 pub struct FormatArgs {}
 
-pub fn format_command(cfg: &Config) -> MosResult<()> {
+pub fn format_command(root: &Path, cfg: &Config) -> MosResult<()> {
     // The formatter cannot lay out text beyond MAX_COLUMN: refuse such a configuration instead of silently capping it
     let ws = &cfg.formatting.whitespace;
     for (name, value) in [
@@ -32,7 +33,8 @@ pub fn format_command(cfg: &Config) -> MosResult<()> {
         }
     }
 
-    let input_name = cfg.build.entry.clone();
+    // Like `build` and `test`: the entry is relative to the project root (where mos.toml lives), not to the current directory
+    let input_name = cfg.build.input_path(root);
     let tree = parse_or_err(input_name.as_ref(), FileSystemParsingSource::new().into())?;
 
     for file in tree.files.keys() {
